@@ -84,17 +84,19 @@ ContFrom(cs, k, skipped, passedCount) ==
         IF IsError(s) THEN "error" ELSE IF s = "failed" THEN "failed"
         ELSE IF s = "untested" THEN (IF passedCount > 0 THEN "failed" ELSE "untested")
         ELSE ContFrom(cs, k + 1, skipped /\ s = "skipped", IF s = "passed" THEN passedCount + 1 ELSE passedCount)
-RECURSIVE OutlFrom(_,_,_)
-OutlFrom(cs, k, skippedCount) ==   \* code as it is: no untested case
+RECURSIVE OutlFrom(_,_,_,_)
+OutlFrom(cs, k, skippedCount, passedCount) ==   \* ScenarioOutline.compute_status over its row scenarios
    IF k > Len(cs) THEN (IF skippedCount > 0 /\ skippedCount = Len(cs) THEN "skipped" ELSE "passed")
    ELSE LET s == StatusOf(cs[k])
-            o == IF IsError(s) THEN "error" ELSE s IN
+            o == IF IsError(s) THEN "error" ELSE IF s = "pending_warn" THEN "passed" ELSE s IN
         IF HasFailed(o) THEN o
-        ELSE OutlFrom(cs, k + 1, IF s = "skipped" THEN skippedCount + 1 ELSE skippedCount)
+        ELSE IF IsUntested(o) THEN (IF passedCount > 0 THEN "failed" ELSE "untested")
+        ELSE IF s = "skipped" THEN OutlFrom(cs, k + 1, skippedCount + 1, passedCount)
+        ELSE OutlFrom(cs, k + 1, skippedCount, passedCount + 1)
 StatusOf(el) ==
    IF forced[el] # "none" THEN forced[el]
    ELSE IF prog[el].kind = "scenario" THEN (IF hookFailed[el] THEN "hook_error" ELSE ScenFrom(stepst[el], 1))
-   ELSE IF prog[el].kind = "outline" THEN OutlFrom(prog[el].children, 1, 0)
+   ELSE IF prog[el].kind = "outline" THEN OutlFrom(prog[el].children, 1, 0, 0)
    ELSE (IF hookFailed[el] THEN "hook_error" ELSE ContFrom(prog[el].children, 1, TRUE, 0))
 
 \* ---------------------------------------------------------------- frames, events
